@@ -27,7 +27,7 @@ func GlobalName(name string) string {
 	if _, err := strconv.ParseUint(name, 10, 64); err == nil {
 		return `@"` + name + `"`
 	}
-	return "@" + EscapeIdent(name)
+	return "@" + escapeName(name)
 }
 
 // GlobalID encodes a global ID to its LLVM IR assembly representation.
@@ -66,7 +66,7 @@ func LocalName(name string) string {
 	if _, err := strconv.ParseUint(name, 10, 64); err == nil {
 		return `%"` + name + `"`
 	}
-	return "%" + EscapeIdent(name)
+	return "%" + escapeName(name)
 }
 
 // LocalID encodes a local ID to its LLVM IR assembly representation.
@@ -105,7 +105,7 @@ func LabelName(name string) string {
 	if _, err := strconv.ParseUint(name, 10, 64); err == nil {
 		return `"` + name + `":`
 	}
-	return EscapeIdent(name) + ":"
+	return escapeName(name) + ":"
 }
 
 // LabelID encodes a label ID to its LLVM IR assembly representation.
@@ -137,7 +137,12 @@ func LabelID(id int64) string {
 //
 //	http://www.llvm.org/docs/LangRef.html#identifiers
 func TypeName(name string) string {
-	return "%" + EscapeIdent(name)
+	// Note, a type name consisting only of digits denotes a numbered type (e.g.
+	// %42).
+	if strings.Trim(name, decimal) == "" {
+		return "%" + name
+	}
+	return "%" + escapeName(name)
 }
 
 // AttrGroupID encodes a attribute group ID to its LLVM IR assembly
@@ -166,7 +171,7 @@ func AttrGroupID(id int64) string {
 //
 //	http://www.llvm.org/docs/LangRef.html#identifiers
 func ComdatName(name string) string {
-	return "$" + EscapeIdent(name)
+	return "$" + escapeName(name)
 }
 
 // MetadataName encodes a metadata name to its LLVM IR assembly representation.
@@ -226,6 +231,18 @@ const (
 	// ASCII characters.
 	quotedIdent = " !#$%&'()*+,-./0123456789:;<=>?@ABCDEFGHIJKLMNOPQRSTUVWXYZ[]^_`abcdefghijklmnopqrstuvwxyz{|}~"
 )
+
+// escapeName returns the identifier spelling of the given name. In addition to
+// EscapeIdent, a name that starts with a decimal digit is quoted, since an
+// unquoted identifier must not start with a digit (@1abc is not a valid token
+// and @18446744073709551616 is read as an unnamed ID).
+func escapeName(name string) string {
+	s := EscapeIdent(name)
+	if len(name) > 0 && strings.IndexByte(decimal, name[0]) != -1 && !strings.HasPrefix(s, `"`) {
+		return `"` + s + `"`
+	}
+	return s
+}
 
 // EscapeIdent replaces any characters which are not valid in identifiers with
 // corresponding hexadecimal escape sequence (\XX).
